@@ -314,6 +314,54 @@ func runC17(c *Ctx) {
 	}
 
 	// R3 no generic file servers
+	c.rule("C17-R4", "ERR: in pkg/web the string returned by filepath.EvalSymlinks / filepath.Abs is used only where the call's error was established to be nil: no use of the result is reachable from the call along a path that does not cross the err == nil edge. On an error these functions return \"\", and isSubPath(\"\", p) holds for every absolute p - a root that does not exist (yet, or any more) would confine nothing")
+	{
+		n := 0
+		for _, fn := range c.srcFuncs(webPkg) {
+			k := 0
+			eachInstr(fn, func(_ *ssa.BasicBlock, _ int, ins ssa.Instruction) {
+				call, ok := ins.(*ssa.Call)
+				if !ok {
+					return
+				}
+				if nm := callName(call); nm != "path/filepath.EvalSymlinks" && nm != "path/filepath.Abs" {
+					return
+				}
+				res := extractOf(call, 0)
+				errs := extractOf(call, 1)
+				if len(res) == 0 {
+					return
+				}
+				n++
+				k++
+				uses := map[ssa.Instruction]bool{}
+				for _, r := range res {
+					for _, u := range refs(r) {
+						if _, dbg := u.(*ssa.DebugRef); !dbg {
+							uses[u] = true
+						}
+					}
+				}
+				q := &pathQuery{fn: fn, target: func(x ssa.Instruction) bool { return uses[x] }, cutEdge: func(b *ssa.BasicBlock, si int) bool {
+					for _, e := range errs {
+						if nilOnEdge(b, si, e) {
+							return true
+						}
+					}
+					return false
+				}}
+				hit, path := q.after(call)
+				p := call.Pos()
+				if hit != nil {
+					p = hit.Pos()
+				}
+				c.ob("C17-R4", fnKey(fn)+"#resolved-path-used-only-after-success-"+itoa(k), p, hit == nil && len(errs) > 0, "the result of "+short(callName(call))+" is used on a path on which its error was not established to be nil (the error is ignored, or only some errors return): on failure the result is the empty string, and a containment test against an empty root accepts every absolute path", c.blockPath(path)...)
+			})
+		}
+		c.Sites["C17-R4#resolutions"] = n
+		c.floor("C17-R4", 3)
+	}
+
 	c.rule("C17-R3", "WCS: no non-test code of the module serves files through http.FileServer / http.Dir / http.ServeFile / http.FileServerFS (which follow symbolic links without a containment check); `@ static` is registered only through web.NewStaticFileServer")
 	n := 0
 	for p := range c.SSA {
